@@ -113,6 +113,17 @@ let hd default = function
 | [] -> default
 | x :: _ -> x
 
+(** val nth : nat -> 'a1 list -> 'a1 -> 'a1 **)
+
+let rec nth n0 l default =
+  match n0 with
+  | O -> (match l with
+          | [] -> default
+          | x :: _ -> x)
+  | S m -> (match l with
+            | [] -> default
+            | _ :: t -> nth m t default)
+
 (** val rev : 'a1 list -> 'a1 list **)
 
 let rec rev = function
@@ -427,6 +438,19 @@ module Coq_Pos =
   let gcd a b0 =
     gcdn (Coq__1.add (size_nat a) (size_nat b0)) a b0
 
+  (** val iter_op : ('a1 -> 'a1 -> 'a1) -> positive -> 'a1 -> 'a1 **)
+
+  let rec iter_op op p a =
+    match p with
+    | XI p0 -> op a (iter_op op p0 (op a a))
+    | XO p0 -> iter_op op p0 (op a a)
+    | XH -> a
+
+  (** val to_nat : positive -> nat **)
+
+  let to_nat x =
+    iter_op Coq__1.add x (S O)
+
   (** val of_succ_nat : nat -> positive **)
 
   let rec of_succ_nat = function
@@ -574,6 +598,12 @@ module N =
 
   let modulo a b0 =
     snd (div_eucl a b0)
+
+  (** val to_nat : n -> nat **)
+
+  let to_nat = function
+  | N0 -> O
+  | Npos p -> Coq_Pos.to_nat p
 
   (** val of_nat : nat -> n **)
 
@@ -1269,22 +1299,27 @@ let from_string_base s base =
         | [] ->
           let flip = false in
           (match horner (bnew (Z.of_N base)) s (bnew Z0) with
-           | Some res ->
-             FSOk (if flip then { bpos = false; limbs = res.limbs } else res)
+           | Some res0 ->
+             FSOk
+               (if flip then { bpos = false; limbs = res0.limbs } else res0)
            | None -> FSParse)
         | c :: r ->
           if N.eqb c cH_MINUS
           then let flip = true in
                (match horner (bnew (Z.of_N base)) r (bnew Z0) with
-                | Some res ->
+                | Some res0 ->
                   FSOk
-                    (if flip then { bpos = false; limbs = res.limbs } else res)
+                    (if flip
+                     then { bpos = false; limbs = res0.limbs }
+                     else res0)
                 | None -> FSParse)
           else let flip = false in
                (match horner (bnew (Z.of_N base)) s (bnew Z0) with
-                | Some res ->
+                | Some res0 ->
                   FSOk
-                    (if flip then { bpos = false; limbs = res.limbs } else res)
+                    (if flip
+                     then { bpos = false; limbs = res0.limbs }
+                     else res0)
                 | None -> FSParse))
 
 (** val num_display : num -> n list **)
@@ -1316,7 +1351,7 @@ let num_from_string s =
         | [] ->
           let ng = false in
           let parts = split_slash s [] in
-          let res =
+          let res0 =
             match parts with
             | [] -> None
             | a :: l ->
@@ -1334,14 +1369,14 @@ let num_from_string s =
                      | _ -> None)
                   | _ -> None))
           in
-          (match res with
+          (match res0 with
            | Some r -> Some (if ng then nminus r else r)
            | None -> None)
         | c :: r ->
           if N.eqb c cH_MINUS
           then let ng = true in
                let parts = split_slash r [] in
-               let res =
+               let res0 =
                  match parts with
                  | [] -> None
                  | a :: l ->
@@ -1359,12 +1394,12 @@ let num_from_string s =
                           | _ -> None)
                        | _ -> None))
                in
-               (match res with
+               (match res0 with
                 | Some r0 -> Some (if ng then nminus r0 else r0)
                 | None -> None)
           else let ng = false in
                let parts = split_slash s [] in
-               let res =
+               let res0 =
                  match parts with
                  | [] -> None
                  | a :: l ->
@@ -1382,6 +1417,431 @@ let num_from_string s =
                           | _ -> None)
                        | _ -> None))
                in
-               (match res with
+               (match res0 with
                 | Some r0 -> Some (if ng then nminus r0 else r0)
                 | None -> None))
+
+(** val index_from : n -> n list -> n -> n option **)
+
+let rec index_from c l i =
+  match l with
+  | [] -> None
+  | x :: r -> if N.eqb x c then Some i else index_from c r (N.add i (Npos XH))
+
+(** val index_of : n -> n list -> n option **)
+
+let index_of c l =
+  index_from c l N0
+
+(** val sINGLE : n list **)
+
+let sINGLE =
+  (Npos (XI (XO (XI (XO (XI (XO (XO (XO (XO (XI (XI (XO (XI (XO (XI
+    XH)))))))))))))))) :: ((Npos (XI (XO (XI (XI (XO (XI (XI (XO (XI (XO (XI
+    (XO (XI (XO (XI XH)))))))))))))))) :: ((Npos (XI (XI (XO (XI (XO (XI (XI
+    (XO (XI (XO (XI (XO (XI (XO (XI XH)))))))))))))))) :: ((Npos (XI (XI (XO
+    (XO (XO (XI (XI (XO (XI (XI (XI (XO (XI (XO (XI
+    XH)))))))))))))))) :: ((Npos (XI (XO (XO (XO (XO (XI (XI (XO (XI (XI (XI
+    (XO (XI (XO (XI XH)))))))))))))))) :: ((Npos (XI (XO (XO (XO (XI (XO (XI
+    (XO (XI (XI (XI (XO (XI (XO (XI XH)))))))))))))))) :: [])))))
+
+(** val sTART : n list **)
+
+let sTART =
+  (Npos (XO (XO (XO (XO (XO (XO (XO (XO (XO (XI (XI (XO (XI (XO (XI
+    XH)))))))))))))))) :: ((Npos (XO (XO (XO (XI (XI (XO (XI (XO (XI (XO (XI
+    (XO (XI (XO (XI XH)))))))))))))))) :: ((Npos (XO (XO (XO (XO (XI (XO (XI
+    (XO (XI (XI (XI (XO (XI (XO (XI XH)))))))))))))))) :: []))
+
+(** val hEARTS : n list **)
+
+let hEARTS =
+  (Npos (XI (XO (XI (XO (XO (XI (XI (XO (XO (XI (XI (XO (XO
+    XH)))))))))))))) :: ((Npos (XO (XO (XI (XO (XO (XI (XI (XO (XI (XI (XI
+    (XO (XO XH)))))))))))))) :: ((Npos (XI (XO (XI (XO (XI (XO (XO (XI (XO
+    (XO (XI (XO (XI (XI (XI (XI XH))))))))))))))))) :: ((Npos (XO (XI (XI (XO
+    (XI (XO (XO (XI (XO (XO (XI (XO (XI (XI (XI (XI
+    XH))))))))))))))))) :: ((Npos (XI (XI (XI (XO (XI (XO (XO (XI (XO (XO (XI
+    (XO (XI (XI (XI (XI XH))))))))))))))))) :: ((Npos (XO (XO (XO (XI (XI (XO
+    (XO (XI (XO (XO (XI (XO (XI (XI (XI (XI XH))))))))))))))))) :: ((Npos (XI
+    (XO (XO (XI (XI (XO (XO (XI (XO (XO (XI (XO (XI (XI (XI (XI
+    XH))))))))))))))))) :: ((Npos (XO (XI (XO (XI (XI (XO (XO (XI (XO (XO (XI
+    (XO (XI (XI (XI (XI XH))))))))))))))))) :: ((Npos (XI (XI (XO (XI (XI (XO
+    (XO (XI (XO (XO (XI (XO (XI (XI (XI (XI XH))))))))))))))))) :: ((Npos (XO
+    (XO (XI (XI (XI (XO (XO (XI (XO (XO (XI (XO (XI (XI (XI (XI
+    XH))))))))))))))))) :: ((Npos (XI (XO (XI (XI (XI (XO (XO (XI (XO (XO (XI
+    (XO (XI (XI (XI (XI XH))))))))))))))))) :: ((Npos (XI (XO (XO (XO (XO (XI
+    (XI (XO (XO (XI (XI (XO (XO XH)))))))))))))) :: [])))))))))))
+
+(** val cH_Q : n **)
+
+let cH_Q =
+  Npos (XI (XI (XI (XI (XI XH)))))
+
+(** val cH_BANG : n **)
+
+let cH_BANG =
+  Npos (XI (XO (XO (XO (XO XH)))))
+
+(** val cH_US : n **)
+
+let cH_US =
+  Npos (XI (XI (XI (XI (XI (XO XH))))))
+
+(** val cH_LB : n **)
+
+let cH_LB =
+  Npos (XI (XI (XO (XI (XI (XO XH))))))
+
+(** val cH_RB : n **)
+
+let cH_RB =
+  Npos (XI (XO (XI (XI (XI (XO XH))))))
+
+(** val cH_NL : n **)
+
+let cH_NL =
+  Npos (XO (XI (XO XH)))
+
+(** val is_dot : n -> bool **)
+
+let is_dot c =
+  (||)
+    ((||)
+      ((||) (N.eqb c (Npos (XO (XI (XI (XI (XO XH)))))))
+        (N.eqb c (Npos (XO (XI (XI (XO (XO (XI (XO (XO (XO (XO (XO (XO (XO
+          XH))))))))))))))))
+      (N.eqb c (Npos (XI (XI (XI (XI (XO (XI (XI (XI (XO (XI (XO (XO (XO
+        XH))))))))))))))))
+    (N.eqb c (Npos (XO (XI (XI (XI (XO (XI (XI (XI (XO (XI (XO (XO (XO
+      XH)))))))))))))))
+
+(** val dot_val : n -> n **)
+
+let dot_val c =
+  if N.eqb c (Npos (XO (XI (XI (XI (XO XH)))))) then Npos XH else Npos (XI XH)
+
+(** val is_hangul : n -> bool **)
+
+let is_hangul c =
+  (&&)
+    (N.leb (Npos (XO (XO (XO (XO (XO (XO (XO (XO (XO (XO (XI (XI (XO (XI (XO
+      XH)))))))))))))))) c)
+    (N.leb c (Npos (XI (XI (XO (XO (XO (XI (XO (XI (XI (XI (XI (XO (XI (XO
+      (XI XH)))))))))))))))))
+
+(** val is_ws : n -> bool **)
+
+let is_ws c =
+  (||)
+    ((||)
+      ((||)
+        ((||)
+          ((||)
+            ((||)
+              ((||)
+                ((||)
+                  ((||)
+                    ((||)
+                      ((&&) (N.leb (Npos (XI (XO (XO XH)))) c)
+                        (N.leb c (Npos (XI (XO (XI XH))))))
+                      (N.eqb c (Npos (XO (XO (XO (XO (XO XH))))))))
+                    (N.eqb c (Npos (XI (XO (XI (XO (XO (XO (XO XH))))))))))
+                  (N.eqb c (Npos (XO (XO (XO (XO (XO (XI (XO XH))))))))))
+                (N.eqb c (Npos (XO (XO (XO (XO (XO (XO (XO (XI (XO (XI (XI
+                  (XO XH)))))))))))))))
+              ((&&)
+                (N.leb (Npos (XO (XO (XO (XO (XO (XO (XO (XO (XO (XO (XO (XO
+                  (XO XH)))))))))))))) c)
+                (N.leb c (Npos (XO (XI (XO (XI (XO (XO (XO (XO (XO (XO (XO
+                  (XO (XO XH)))))))))))))))))
+            (N.eqb c (Npos (XO (XO (XO (XI (XO (XI (XO (XO (XO (XO (XO (XO
+              (XO XH))))))))))))))))
+          (N.eqb c (Npos (XI (XO (XO (XI (XO (XI (XO (XO (XO (XO (XO (XO (XO
+            XH))))))))))))))))
+        (N.eqb c (Npos (XI (XI (XI (XI (XO (XI (XO (XO (XO (XO (XO (XO (XO
+          XH))))))))))))))))
+      (N.eqb c (Npos (XI (XI (XI (XI (XI (XO (XI (XO (XO (XO (XO (XO (XO
+        XH))))))))))))))))
+    (N.eqb c (Npos (XO (XO (XO (XO (XO (XO (XO (XO (XO (XO (XO (XO (XI
+      XH)))))))))))))))
+
+(** val end_class : n -> n option **)
+
+let end_class c =
+  if N.eqb c (Npos (XI (XO (XO (XI (XO (XO (XI (XI (XI (XO (XI (XO (XO (XO
+       (XI XH))))))))))))))))
+  then Some N0
+  else if (||)
+            (N.eqb c (Npos (XI (XO (XO (XI (XI (XO (XI (XO (XI (XO (XI (XO
+              (XO (XO (XI XH)))))))))))))))))
+            (N.eqb c (Npos (XI (XI (XI (XO (XI (XO (XI (XO (XI (XO (XI (XO
+              (XO (XO (XI XH)))))))))))))))))
+       then Some (Npos XH)
+       else if (||)
+                 ((||)
+                   (N.eqb c (Npos (XI (XI (XI (XI (XO (XO (XI (XO (XI (XI (XI
+                     (XO (XO (XO (XI XH)))))))))))))))))
+                   (N.eqb c (Npos (XI (XO (XI (XI (XO (XO (XI (XO (XI (XI (XI
+                     (XO (XO (XO (XI XH))))))))))))))))))
+                 (N.eqb c (Npos (XI (XO (XI (XI (XI (XI (XO (XO (XI (XI (XI
+                   (XO (XO (XO (XI XH)))))))))))))))))
+            then Some (Npos (XO XH))
+            else None
+
+(** val end_kind : n -> n option **)
+
+let end_kind c =
+  if N.eqb c (Npos (XI (XO (XO (XI (XO (XO (XI (XI (XI (XO (XI (XO (XO (XO
+       (XI XH))))))))))))))))
+  then Some N0
+  else if N.eqb c (Npos (XI (XO (XO (XI (XI (XO (XI (XO (XI (XO (XI (XO (XO
+            (XO (XI XH))))))))))))))))
+       then Some (Npos XH)
+       else if N.eqb c (Npos (XI (XI (XI (XO (XI (XO (XI (XO (XI (XO (XI (XO
+                 (XO (XO (XI XH))))))))))))))))
+            then Some (Npos (XO XH))
+            else if N.eqb c (Npos (XI (XI (XI (XI (XO (XO (XI (XO (XI (XI (XI
+                      (XO (XO (XO (XI XH))))))))))))))))
+                 then Some (Npos (XI XH))
+                 else if N.eqb c (Npos (XI (XO (XI (XI (XO (XO (XI (XO (XI
+                           (XI (XI (XO (XO (XO (XI XH))))))))))))))))
+                      then Some (Npos (XO (XO XH)))
+                      else if N.eqb c (Npos (XI (XO (XI (XI (XI (XI (XO (XO
+                                (XI (XI (XI (XO (XO (XO (XI XH))))))))))))))))
+                           then Some (Npos (XI (XO XH)))
+                           else None
+
+(** val class_of_kind : n -> n **)
+
+let class_of_kind k =
+  if N.eqb k N0
+  then N0
+  else if N.leb k (Npos (XO XH)) then Npos XH else Npos (XO XH)
+
+(** val area_char : n -> n **)
+
+let area_char t =
+  nth (N.to_nat t) (app (cH_Q :: (cH_BANG :: [])) hEARTS) N0
+
+type area =
+| Nil
+| Val of n * area * area
+
+(** val leafA : n -> area **)
+
+let leafA t =
+  Val (t, Nil, Nil)
+
+type slot = n option
+
+(** val slotA : slot -> area **)
+
+let slotA = function
+| Some t -> leafA t
+| None -> Nil
+
+type bangz = { closed : slot list; curslot : slot }
+
+(** val bang_tree : slot list -> slot -> area **)
+
+let rec bang_tree cl last =
+  match cl with
+  | [] -> slotA last
+  | s :: r -> Val ((Npos XH), (slotA s), (bang_tree r last))
+
+(** val bangA : bangz -> area **)
+
+let bangA b0 =
+  bang_tree b0.closed b0.curslot
+
+(** val bang0 : bangz **)
+
+let bang0 =
+  { closed = []; curslot = None }
+
+(** val qu_tree : area list -> area -> area **)
+
+let rec qu_tree qs last =
+  match qs with
+  | [] -> last
+  | a :: r -> Val (N0, a, (qu_tree r last))
+
+type ucode = { ty : n; hc : n; dc : n; loc : (n * n); ar : area; raw : n list }
+
+type pst = { res : ucode list; type_ : n; hangul : n; dots : n;
+             cloc : (n * n); st : n; bz : bangz; qz : area list; line : 
+             n; line_start : n; rawc : n list }
+
+(** val pst0 : pst **)
+
+let pst0 =
+  { res = []; type_ = (Npos (XO (XI (XO XH)))); hangul = N0; dots = N0;
+    cloc = ((Npos XH), N0); st = N0; bz = bang0; qz = []; line = N0;
+    line_start = N0; rawc = [] }
+
+(** val finish : pst -> area **)
+
+let finish s =
+  qu_tree (rev s.qz) (bangA s.bz)
+
+(** val flush : pst -> ucode list **)
+
+let flush s =
+  if N.eqb s.type_ (Npos (XO (XI (XO XH))))
+  then s.res
+  else { ty = s.type_; hc = s.hangul; dc = s.dots; loc = s.cloc; ar =
+         (finish s); raw = (rev s.rawc) } :: s.res
+
+(** val max_pos : n list -> n -> ((n * n) * n) -> (n * n) * n **)
+
+let rec max_pos l i m =
+  match l with
+  | [] -> m
+  | c :: r ->
+    let (p, d) = m in
+    let (a, b0) = p in
+    max_pos r (N.add i (Npos XH))
+      (match end_class c with
+       | Some k ->
+         if N.eqb k N0
+         then ((i, b0), d)
+         else if N.eqb k (Npos XH) then ((a, i), d) else ((a, b0), i)
+       | None -> m)
+
+(** val mp_get : ((n * n) * n) -> n -> n **)
+
+let mp_get m k =
+  let (p, d) = m in
+  let (a, b0) = p in
+  if N.eqb k N0 then a else if N.eqb k (Npos XH) then b0 else d
+
+(** val step : bool -> ((n * n) * n) -> pst -> n -> n -> pst **)
+
+let step bug mp s i c =
+  if is_ws c
+  then if N.eqb c cH_NL
+       then { res = s.res; type_ = s.type_; hangul = s.hangul; dots = s.dots;
+              cloc = s.cloc; st = s.st; bz = s.bz; qz = s.qz; line =
+              (N.add s.line (Npos XH)); line_start = (N.add i (Npos XH));
+              rawc = s.rawc }
+       else s
+  else if N.eqb s.st (Npos XH)
+       then let h = is_hangul c in
+            let hangul' = if h then N.add s.hangul (Npos XH) else s.hangul in
+            let raw' = if h then c :: s.rawc else s.rawc in
+            let fin =
+              match end_kind c with
+              | Some k ->
+                if N.eqb (N.add (class_of_kind k) (Npos (XO (XI XH)))) s.type_
+                then Some k
+                else None
+              | None -> None
+            in
+            (match fin with
+             | Some t ->
+               { res = s.res; type_ = t; hangul = hangul'; dots = N0; cloc =
+                 s.cloc; st = N0; bz = s.bz; qz = s.qz; line = s.line;
+                 line_start = s.line_start; rawc = raw' }
+             | None ->
+               { res = s.res; type_ = s.type_; hangul = hangul'; dots =
+                 s.dots; cloc = s.cloc; st = (Npos XH); bz = s.bz; qz = s.qz;
+                 line = s.line; line_start = s.line_start; rawc = raw' })
+       else let start = fun t ->
+              let fl = negb (N.eqb s.type_ (Npos (XO (XI (XO XH))))) in
+              let reset = (||) fl (negb bug) in
+              { res = (flush s); type_ = t; hangul = (Npos XH); dots = N0;
+              cloc = ((N.add s.line (Npos XH)), (N.sub i s.line_start)); st =
+              (if N.ltb t (Npos (XO (XI XH))) then N0 else Npos XH); bz =
+              (if reset then bang0 else s.bz); qz =
+              (if reset then [] else s.qz); line = s.line; line_start =
+              s.line_start; rawc = (c :: []) }
+            in
+            (match index_of c sINGLE with
+             | Some k -> start k
+             | None ->
+               (match index_of c sTART with
+                | Some k ->
+                  if N.leb (mp_get mp k) i
+                  then s
+                  else start (N.add k (Npos (XO (XI XH))))
+                | None ->
+                  if is_dot c
+                  then if N.eqb s.st N0
+                       then { res = s.res; type_ = s.type_; hangul =
+                              s.hangul; dots = (N.add s.dots (dot_val c));
+                              cloc = s.cloc; st = N0; bz = s.bz; qz = s.qz;
+                              line = s.line; line_start = s.line_start;
+                              rawc = (c :: s.rawc) }
+                       else s
+                  else if N.eqb c cH_Q
+                       then { res = s.res; type_ = s.type_; hangul =
+                              s.hangul; dots = s.dots; cloc = s.cloc; st =
+                              (Npos (XO XH)); bz = bang0; qz =
+                              ((bangA s.bz) :: s.qz); line = s.line;
+                              line_start = s.line_start; rawc =
+                              (c :: s.rawc) }
+                       else if N.eqb c cH_BANG
+                            then { res = s.res; type_ = s.type_; hangul =
+                                   s.hangul; dots = s.dots; cloc = s.cloc;
+                                   st = (Npos (XO XH)); bz = { closed =
+                                   (app s.bz.closed (s.bz.curslot :: []));
+                                   curslot = None }; qz = s.qz; line =
+                                   s.line; line_start = s.line_start; rawc =
+                                   (c :: s.rawc) }
+                            else (match index_of c hEARTS with
+                                  | Some k ->
+                                    { res = s.res; type_ = s.type_; hangul =
+                                      s.hangul; dots = s.dots; cloc = s.cloc;
+                                      st = (Npos (XO XH)); bz = { closed =
+                                      s.bz.closed; curslot =
+                                      (match s.bz.curslot with
+                                       | Some n0 -> Some n0
+                                       | None -> Some (N.add k (Npos (XO XH)))) };
+                                      qz = s.qz; line = s.line; line_start =
+                                      s.line_start; rawc = (c :: s.rawc) }
+                                  | None -> s)))
+
+(** val run : bool -> ((n * n) * n) -> n list -> n -> pst -> pst **)
+
+let rec run bug mp l i s =
+  match l with
+  | [] -> s
+  | c :: r -> run bug mp r (N.add i (Npos XH)) (step bug mp s i c)
+
+(** val parse_gen : bool -> n list -> ucode list **)
+
+let parse_gen bug l =
+  rev (flush (run bug (max_pos l N0 ((N0, N0), N0)) l N0 pst0))
+
+(** val parse : n list -> ucode list **)
+
+let parse =
+  parse_gen false
+
+(** val parse_pre_fix : n list -> ucode list **)
+
+let parse_pre_fix =
+  parse_gen true
+
+(** val area_debug : area -> n list **)
+
+let rec area_debug = function
+| Nil -> cH_US :: []
+| Val (t, l, r) ->
+  (area_char t) :: (if N.leb t (Npos XH)
+                    then app (area_debug l) (area_debug r)
+                    else [])
+
+(** val area_display : area -> n list **)
+
+let rec area_display = function
+| Nil -> cH_US :: []
+| Val (t, l, r) ->
+  if N.leb t (Npos XH)
+  then app (cH_LB :: [])
+         (app (area_display l)
+           (app (cH_RB :: [])
+             (app ((area_char t) :: [])
+               (app (cH_LB :: []) (app (area_display r) (cH_RB :: []))))))
+  else (area_char t) :: []
